@@ -96,6 +96,65 @@ def run_cases(ctx, cases: List[Case], with_query=True) -> None:
         c.answer = a
 
 
+def needs_gxx(c: "Case") -> bool:
+    """the Lean semantics cannot interpret the emitted program (unrecognised line / construct)"""
+    a = c.answer
+    if a is None or "bad" in a:
+        return False
+    outs = list(a.get("exec") or []) + [a.get("job") or {}]
+    return any(str(o.get("fault", "")).startswith("stuck:opaque") for o in outs)
+
+
+def attach_gxx(cases: List["Case"], per_event: bool = True, job: bool = False) -> None:
+    """Run the REAL generated code under g++ against the mock EDM (tools/cppmock.py) for the given
+    cases: each event alone (`gxx_exec`) and/or all events as one job (`gxx_job`)."""
+    import cppmock
+
+    jobs, where = [], []
+    for c in cases:
+        if not c.result or not c.result.get("ok"):
+            continue
+        if per_event:
+            for i, ev in enumerate(c.events):
+                jobs.append((c.backend, c.result, [ev]))
+                where.append((c, "ev", i))
+        if job:
+            jobs.append((c.backend, c.result, c.events))
+            where.append((c, "job", 0))
+    outs = cppmock.run_many(jobs) if jobs else []
+    for c in cases:
+        c.gxx_exec = [None] * len(c.events)
+        c.gxx_job = None
+    for (c, kind, i), o in zip(where, outs):
+        if kind == "ev":
+            c.gxx_exec[i] = gxx_outcome(o, 0)
+        else:
+            c.gxx_job = o
+
+
+def gxx_outcome(o: Dict[str, Any], i: int) -> Dict[str, Any]:
+    if not o.get("compiled"):
+        return {"fault": "does-not-compile", "errors": o.get("errors", "")[-800:]}
+    if o.get("rc", 0) != 0 and i >= len(o.get("events", [])):
+        return {"fault": f"crashed(rc={o.get('rc')})"}
+    ev = o["events"][i] if i < len(o.get("events", [])) else {"rows": []}
+    if "fault" in ev:
+        return {"fault": ev["fault"], "num": ev["rows"]}
+    if o.get("rc", 0) != 0 and i == len(o["events"]) - 1:
+        return {"fault": f"crashed(rc={o.get('rc')})", "num": ev["rows"]}
+    return {"num": ev["rows"], "rows": ev["rows"], "by": "g++"}
+
+
+def exec_outcomes(c: "Case") -> List[Dict[str, Any]]:
+    """per-event outcomes of the implementation's program: Lean semantics, or g++ where attached"""
+    a = c.answer or {}
+    res = []
+    for i, ex in enumerate(a.get("exec") or []):
+        g = getattr(c, "gxx_exec", None)
+        res.append(g[i] if g and g[i] is not None else ex)
+    return res
+
+
 def fault_class(r: Dict[str, Any]) -> str:
     f = r.get("fault")
     if f is None:
@@ -112,7 +171,21 @@ def same_outcome(ex: Dict[str, Any], de: Dict[str, Any]) -> Tuple[bool, str]:
         return False, f"exec {ex.get('fault', 'ok')} / query {de.get('fault', 'ok')}"
     if _norm_num(ex["num"]) == _norm_num(de["num"]):
         return True, "rows-agree"
+    if rows_num_eq(ex["num"], de["num"]):
+        return True, "rows-agree"
     return False, "rows differ"
+
+
+def rows_num_eq(a, b) -> bool:
+    """numeric comparison cell by cell (used when one side was printed by g++)"""
+    import cppmock
+
+    if len(a) != len(b):
+        return False
+    for r1, r2 in zip(a, b):
+        if len(r1) != len(r2) or not all(cppmock.num_eq(str(x), str(y)) for x, y in zip(r1, r2)):
+            return False
+    return True
 
 
 def _norm_num(x):
